@@ -934,7 +934,11 @@ func vxC14Run(c *vxC14Case, k *vstats.Case) error {
 	}()
 	stop := func() {
 		close(stopSampler)
-		<-samplerDone
+		select {
+		case <-samplerDone:
+		case <-time.After(2 * time.Second):
+			// the sampler waits for the cache's mutex: somebody holds it for good (reported by the watchdog)
+		}
 	}
 
 	type opRef struct {
@@ -1000,15 +1004,45 @@ func vxC14Run(c *vxC14Case, k *vstats.Case) error {
 		}
 		joined := make(chan struct{})
 		go func() { wg.Wait(); close(joined) }()
-		select {
-		case <-joined:
-		case <-time.After(vxC14Watchdog):
-			w.mu.Lock()
-			w.done = true
-			w.mu.Unlock()
-			w.release()
-			stop()
-			return &vxC14Hung{what: fmt.Sprintf("round %d: executors still blocked after %v", ri, vxC14Watchdog)}
+		watchdog := time.After(vxC14Watchdog)
+		lastFree := time.Now()
+	wait:
+		for {
+			select {
+			case <-joined:
+				break wait
+			case <-time.After(50 * time.Millisecond):
+				// the cache's mutex guards a few map operations; nobody holds it for seconds unless it waits for
+				// something while holding it - and whoever needs the mutex to let that happen waits for ever
+				if s.stmtsLRU.mu.TryLock() {
+					s.stmtsLRU.mu.Unlock()
+					lastFree = time.Now()
+				} else if time.Since(lastFree) > 3*time.Second {
+					w.mu.Lock()
+					w.done = true
+					w.mu.Unlock()
+					w.release()
+					stop()
+					var who []string
+					for _, g := range vxGoroutines() {
+						for _, f := range g.Funcs {
+							if strings.Contains(f, "(*preparedLRU)") {
+								who = append(who, fmt.Sprintf("%s [%s]", strings.TrimPrefix(f, vxPkgPath+"."), g.State))
+								break
+							}
+						}
+					}
+					sort.Strings(who)
+					return fmt.Errorf("round %d: the mutex of the prepared-statement cache has been held for 3 s while executors are blocked (deadlock): %s", ri, strings.Join(who, ", "))
+				}
+			case <-watchdog:
+				w.mu.Lock()
+				w.done = true
+				w.mu.Unlock()
+				w.release()
+				stop()
+				return &vxC14Hung{what: fmt.Sprintf("round %d: executors still blocked after %v", ri, vxC14Watchdog)}
+			}
 		}
 		sample()
 		w.mu.Lock()
